@@ -143,7 +143,11 @@ Proof.
 Qed.
 
 Lemma part_id_tmp x : part_id (x ++ s_tmp) = None.
-Proof. unfold part_id. destruct (existsb (N.eqb 10) (x ++ s_tmp)); [reflexivity|]. rewrite rev_app_distr. reflexivity. Qed.
+Proof.
+  unfold part_id. rewrite rev_app_distr. change (rev s_tmp) with [112; 109; 116; 46]%N. cbn [app].
+  set (t := rev x). cbv beta iota zeta.
+  match goal with |- (if ?b then _ else _) = _ => destruct b end; reflexivity.
+Qed.
 
 Lemma total_map_snd (f : entry -> entry) l : (forall e, snd (f e) = snd e) -> total (map f l) = total l.
 Proof. intros H. induction l as [|e l IH]; [reflexivity|]. cbn [map]. now rewrite !total_cons, IH, H. Qed.
